@@ -152,30 +152,14 @@ def _draw_cut(b):
 def rule_b(ctx):
     F = ctx.facts
     # --- wrap width
-    gw = F.one("get_wrapping_or_insert")
-    cls = [cb for _bb, _i, cb, _o, _f in closure_bodies_created_in(F, gw)]
-    require(len(cls) == 1, "get_wrapping_or_insert builds the block in one closure")
-    cb = cls[0]
-    wn = cb.calls(lambda cd, t: ends(cd, "WrappedBlock::<T>::new"))
-    if ctx.check(len(wn) == 1, "C15-B", "wrap-width:one-block-constructor", cb.span, fn_key(cb), ""):
-        pl = op_place(wn[0][1]["args"][0])
-        defs = [r for r in cb.defs()[pl["l"]] if r[0] in ("stmt", "call")] if pl is not None and is_bare(pl) else []
-        # follow one copy
-        while len(defs) == 1 and defs[0][0] == "stmt" and "use" in defs[0][3]["rv"] and op_place(defs[0][3]["rv"]["use"]) is not None \
-                and is_bare(op_place(defs[0][3]["rv"]["use"])):
-            pl = op_place(defs[0][3]["rv"]["use"])
-            defs = [r for r in cb.defs()[pl["l"]] if r[0] in ("stmt", "call")]
-        forms = []
-        for r in defs:
-            if r[0] == "call":
-                forms.append("%s(%s)" % (callee_method(r[2]), ",".join(sorted(cb.expr(a) for a in r[2]["args"]))))
-            else:
-                forms.append(cb.expr(r[3]["rv"].get("use") or {"l": 0, "p": []}))
-        forms = [f.replace("arg1.", "").replace("_1.", "") for f in forms]
-        ctx.check(sorted(forms) == ["min(width,ww)", "width"], "C15-B", "wrap-width=min(m,width)|width", wn[0][1]["span"], fn_key(cb),
-                  "block width is computed as %s" % sorted(forms))
-        # Some ⇒ min, None ⇒ width
-        for r in defs:
+    from ..widths import block_width_kinds
+    cb, tnew, kinds = block_width_kinds(F)
+    wn = [(None, tnew)]
+    ctx.check(kinds in (["min", "width"], ["map_or-min"]), "C15-B", "wrap-width=min(m,width)|width", tnew["span"], fn_key(cb),
+              "block width is computed as %s" % kinds)
+    if kinds == ["min", "width"]:
+        # match form: Some ⇒ min, None ⇒ width
+        for r in block_width_kinds.last_defs:
             bb = r[1]
             some = False
             for (a, s) in cb.cdeps_transitive(bb):
@@ -238,14 +222,16 @@ def rule_b(ctx):
     nfil = 0
     for bb, t in chs:
         at = ait.atoms(t["args"][0])
-        filtered = ("call", None) in at  # result of an indirect call through the text_filter_stack fn pointers
+        # "filtered" = derived from the text_filter_stack (a loop calling the fn pointers, or an iterator fold over them)
+        filtered = ("call", None) in at or has_field(at, SUBR, "text_filter_stack")
         nfil += 1
         ctx.check(not filtered and ("arg", 2) in at, "C15-B", "strikeout:whitespace-test-on-unfiltered-text#%d" % nfil, t["span"], ait.id,
                   "the white-space-between-blocks test must look at the document text, not at the output of the strikeout "
                   "filter (a struck space is not white space any more: the option would change the layout)")
     ctx.floor("C15-B", "text inspections in add_inline_text", nfil, 1)
     adds = ait.calls(lambda cd, t: ends(cd, "WrappedBlock::<T>::add_text"))
-    okc = len(adds) == 1 and ("call", None) in ait.atoms(adds[0][1]["args"][1])
+    a_add = ait.atoms(adds[0][1]["args"][1]) if len(adds) == 1 else set()
+    okc = len(adds) == 1 and (("call", None) in a_add or has_field(a_add, SUBR, "text_filter_stack"))
     ctx.check(okc, "C15-B", "strikeout:filtered-text-reaches-add_text", ait.span, ait.id, "")
     # --- borders: every border-line creation governed by draw_borders
     nb = 0
